@@ -10,8 +10,8 @@
 //        items: H B T (section)  F<tag>=<hex> (field)  G<tag> (open group)  E (new element)  e  g   D
 // Every dec/enc prints {"e":"Begin","id":..} first and {"e":"End","id":..} last, so that the driver
 // knows which input was in flight when the process died (sanitizer report: exit 97; watchdog: the
-// SIGALRM handler prints {"e":"Timeout"} and exits 98) and restarts the probe behind it.
-//   limit <ms>      watchdog bound per command (default 10000)
+// SIGPROF/SIGALRM handler prints {"e":"Timeout"} and exits 98) and restarts the probe behind it.
+//   limit <ms>      watchdog bound per command in CPU time (default 10000); "us" fields are CPU time too
 //   fork on|off     alternatively run each dec/enc in a forked child (slow under ASan; off by default):
 //                   {"e":"Abort","id":..,"how":"exit|signal|timeout","rc":..,"report":"<head of stderr>"}
 #include <precomp.hpp>
@@ -40,6 +40,14 @@ static long long now_us()
 {
 	timespec ts;
 	clock_gettime(CLOCK_MONOTONIC, &ts);
+	return ts.tv_sec * 1000000LL + ts.tv_nsec / 1000;
+}
+
+// CPU time of this process: what the "us" fields report, so that a loaded machine does not look like a slow codec
+static long long cpu_us()
+{
+	timespec ts;
+	clock_gettime(CLOCK_PROCESS_CPUTIME_ID, &ts);
 	return ts.tv_sec * 1000000LL + ts.tv_nsec / 1000;
 }
 
@@ -101,7 +109,7 @@ template<typename F>
 static bool guarded(pj::Ev& ev, const char *pfx, F&& f)
 {
 	const std::string p(pfx);
-	const long long t0 = now_us();
+	const long long t0 = cpu_us();
 	bool ok = false;
 	try
 	{
@@ -121,7 +129,7 @@ static bool guarded(pj::Ev& ev, const char *pfx, F&& f)
 	{
 		ev.s((p + "res").c_str(), "otherexc");
 	}
-	ev.i((p + "us").c_str(), now_us() - t0);
+	ev.i((p + "us").c_str(), cpu_us() - t0);
 	return ok;
 }
 
@@ -289,18 +297,23 @@ static void on_alarm(int)
 	_exit(98);
 }
 
+// watchdog: `ms` of CPU time (a decode or encode only computes), ten times that of wall time as a backstop
 static void arm(long ms)
 {
 	itimerval it {};
 	it.it_value.tv_sec = ms / 1000;
 	it.it_value.tv_usec = (ms % 1000) * 1000;
-	setitimer(ITIMER_REAL, &it, nullptr);
+	setitimer(ITIMER_PROF, &it, nullptr);
+	itimerval wall {};
+	wall.it_value.tv_sec = ms / 100;
+	setitimer(ITIMER_REAL, &wall, nullptr);
 }
 
 int main(int argc, char **argv)
 {
 	pj::install_terminate();
 	signal(SIGALRM, on_alarm);
+	signal(SIGPROF, on_alarm);
 	// touch both contexts before any fork so that their tables are built once
 	(void)UTEST::ctx(); (void)FIX44::ctx();
 	bool forking = false;
